@@ -26,6 +26,20 @@ pub fn run(ctx: &Ctx) -> CheckResult {
         spaces.push(Space { cfg: Cfg::p1(Kind::Cci, n), alphabet: with_reset(grid.clone()), depth: db, label: "B_grid+reset" });
         spaces.push(Space { cfg: Cfg::p1(Kind::Mfi, n), alphabet: vol.clone(), depth: dv, label: "B_vol" });
     }
+    // the same alphabets in a tiny price unit (2^-60): absolute epsilons / thresholds become visible
+    let tiny_pos = with_reset(s_ops(&S_TINY));
+    let tiny_grid = b_ops(&scale_bars(&b_grid(), TINY));
+    let tiny_vol = b_ops(&scale_bars(&b_vol(), TINY));
+    for n in 1..=4usize {
+        for k in [Kind::Rsi, Kind::FastStoch, Kind::Roc, Kind::Er] {
+            spaces.push(Space { cfg: Cfg::p1(k, n), alphabet: tiny_pos.clone(), depth: d - 2, label: "S_tiny+reset" });
+        }
+        spaces.push(Space { cfg: Cfg::p1(Kind::FastStoch, n), alphabet: tiny_grid.clone(), depth: db - 1, label: "B_grid_tiny" });
+        spaces.push(Space { cfg: Cfg::p1(Kind::Cci, n), alphabet: tiny_grid.clone(), depth: db - 1, label: "B_grid_tiny" });
+        spaces.push(Space { cfg: Cfg::p2(Kind::SlowStoch, n, 2), alphabet: tiny_grid.clone(), depth: db - 1, label: "B_grid_tiny" });
+        spaces.push(Space { cfg: Cfg::p1(Kind::Mfi, n), alphabet: tiny_vol.clone(), depth: dv - 1, label: "B_vol_tiny" });
+        spaces.push(Space { cfg: Cfg::p3(Kind::Ppo, n, n + 1, 2), alphabet: tiny_pos.clone(), depth: d - 3, label: "S_tiny+reset" });
+    }
     spaces.push(Space { cfg: Cfg::p0(Kind::Obv), alphabet: vol.clone(), depth: dv, label: "B_vol" });
     spaces.push(Space { cfg: Cfg::p0(Kind::Obv), alphabet: with_reset(grid.clone()), depth: db, label: "B_grid+reset" });
     let tup = [1usize, 2, 3, 5];
@@ -102,7 +116,7 @@ pub fn run(ctx: &Ctx) -> CheckResult {
     }
     res.require(res.out.stats.evaluations > 0, "no applicable oracle evaluation");
     res.rule = "case = (configuration, history of positive prices / valid bars) replayed on a fresh real instance; last output compared with the documented formula evaluated from scratch (double-double) at tolerance tau(t)*c*scale; steps with zero reference denominator or c>1e6 are skipped and counted; non-trivial = applicable and history longer than the look-back".into();
-    res.bounds = format!("seq(S_pos+reset,{d}) for RSI/FAST_STOCH/ROC/ER n=1..5; seq(B_grid+reset,{db}) for FAST_STOCH/CCI/OBV; seq(B_vol,{dv}) for MFI n=1..5 and OBV; SLOW_STOCH over {{1,2,3,5}}^2, PPO over {{1,2,3,5}}^3 at reduced depth; deviation families for periods up to {}", if th { 512 } else { 100 });
+    res.bounds = format!("seq(S_pos+reset,{d}) for RSI/FAST_STOCH/ROC/ER n=1..5; seq(B_grid+reset,{db}) for FAST_STOCH/CCI/OBV; seq(B_vol,{dv}) for MFI n=1..5 and OBV; the same alphabets in a 2^-60 price unit for periods 1..4 at reduced depth; SLOW_STOCH over {{1,2,3,5}}^2, PPO over {{1,2,3,5}}^3 at reduced depth; deviation families for periods up to {}", if th { 512 } else { 100 });
     res.assumptions = vec!["positive prices / valid bars only (the statement's domain)".into(), "c read as (largest magnitude entering numerator or denominator, inputs included) / |reference denominator|".into()];
     res
 }
